@@ -80,12 +80,13 @@ impl<'a> SendTransactionsProofReader<'a> {
     pub fn missing_tx_hashes(&self) -> (r: Byte32VecReader<'a>) ensures r.items == self.missing { Byte32VecReader { items: self.missing } }
     pub fn count_extra_fields(&self) -> (r: usize) ensures r == self.extra_fields { self.extra_fields }
     #[verifier::external_body]
-    pub fn as_slice(&self) -> (r: RawSlice) { unimplemented!() }
+    pub fn as_slice(&self) -> (r: RawSlice) ensures r.extra == self.extra_fields { unimplemented!() }
 }
 pub struct SendTransactionsProofV1Reader<'a> { pub v1_uncles: &'a Vec<Byte32>, pub v1_exts: &'a Vec<BytesOptReader> }
 impl<'a> SendTransactionsProofV1Reader<'a> {
+    // (molecule: the V1 view may only be taken of a table that really has the two extra fields, see SendBlocksProofV1Reader)
     #[verifier::external_body]
-    pub fn new_unchecked(s: RawSlice) -> (r: SendTransactionsProofV1Reader<'a>) { unimplemented!() }
+    pub fn new_unchecked(s: RawSlice) -> (r: SendTransactionsProofV1Reader<'a>) requires s.extra >= 2 { unimplemented!() }
     pub fn blocks_uncles_hash(&self) -> (r: Byte32VecReader<'a>) ensures r.items == self.v1_uncles { Byte32VecReader { items: self.v1_uncles } }
     pub fn blocks_extension(&self) -> (r: BytesOptVecReader<'a>) ensures r.items == self.v1_exts { BytesOptVecReader { items: self.v1_exts } }
 }
